@@ -254,6 +254,112 @@ static void svd_sweep(const Desc& d)
     }
 }
 
+// C16, generated behaviours: one PartialSVDSolver driven along a call sequence exported by TLC from spec/MC_SVDSeq.tla
+// (tools/krygen.py): C<a> compute with argument set a, U<k> / V<k> matrix_U(k) / matrix_V(k), S singular_values().
+// After every call a reference object executes ONLY "compute(args of the most recent compute); the same call", and the
+// digests of both answers are logged; the specification compares them and tracks nconv / the cache through SV_* operators.
+template <typename MatrixType>
+static void svdseq_case(const Desc& d, const MatL& AL0, int ncomp, int ncv, const char* store)
+{
+    typedef Eigen::Matrix<double, Eigen::Dynamic, Eigen::Dynamic> Mat;
+    Mat Ad = AL0.cast<double>();
+    MatrixType A = MatrixType(Ad.sparseView().template cast<double>());
+    const int m = (int) Ad.rows(), n = (int) Ad.cols();
+    const ll mx[3] = {1000, 1 + (ll) (d.i("seed", 1) % 7), 1000};
+    const double tl[3] = {1e-10, 1e-10, 1e-3};
+    PartialSVDSolver<MatrixType> svd(A, ncomp, ncv);
+    std::vector<std::string> ops = d.list("ops");
+    int lastarg = -1;
+    ll nconv = 0;
+    for (size_t oi = 0; oi < ops.size(); oi++)
+    {
+        const char c = ops[oi][0];
+        const ll a = ops[oi].size() > 1 ? atoll(ops[oi].c_str() + 1) : 0;
+        Line l("SvdCall");
+        l.str("op", std::string(1, c)).i("a", a).i("i", (ll) oi + 1).i("m", m).i("n", n).i("ncomp", ncomp).str("st", store);
+        Digest g, rg;
+        ll rows = 0, cols = 0, rrows = 0, rcols = 0, rnconv = 0;
+        int thr = 0;
+        try
+        {
+            std::unique_ptr<PartialSVDSolver<MatrixType> > ref(new PartialSVDSolver<MatrixType>(A, ncomp, ncv));
+            if (c == 'C')
+            {
+                lastarg = (int) a;
+                nconv = (ll) svd.compute(mx[a], tl[a]);
+                rnconv = (ll) ref->compute(mx[a], tl[a]);
+                g.i64(nconv);
+                rg.i64(rnconv);
+            }
+            else
+            {
+                rnconv = (ll) ref->compute(mx[lastarg], tl[lastarg]);
+                if (c == 'S')
+                {
+                    Eigen::VectorXd v = svd.singular_values(), rv = ref->singular_values();
+                    g.mat(v);
+                    rg.mat(rv);
+                    rows = (ll) v.size();
+                    cols = 1;
+                    rrows = (ll) rv.size();
+                    rcols = 1;
+                }
+                else
+                {
+                    Mat X = c == 'U' ? svd.matrix_U((Eigen::Index) a) : svd.matrix_V((Eigen::Index) a);
+                    Mat R = c == 'U' ? ref->matrix_U((Eigen::Index) a) : ref->matrix_V((Eigen::Index) a);
+                    g.mat(X);
+                    rg.mat(R);
+                    rows = (ll) X.rows();
+                    cols = (ll) X.cols();
+                    rrows = (ll) R.rows();
+                    rcols = (ll) R.cols();
+                }
+            }
+        }
+        catch (const std::exception& e)
+        {
+            thr = 1;
+        }
+        l.i("thr", thr).i("nconv", nconv).i("rnconv", rnconv).i("rows", rows).i("cols", cols).i("rrows", rrows).i("rcols", rcols).i("dg", g.word30()).i("rdg", rg.word30());
+        out().put(l);
+    }
+}
+
+static void mode_svdseq(const Desc& d)
+{
+    {
+        Line l("Reset");
+        l.str("desc", d.raw);
+        out().put(l);
+    }
+    Rng r((uint64_t) d.i("seed", 1) * 733 + 3);
+    const int shape = (int) d.i("shape", 0);   // 0 tall, 1 wide, 2 square
+    int m = 12 + r.below(14), n = 12 + r.below(14);
+    if (shape == 0 && m <= n)
+        std::swap(m, n), m += 1;
+    if (shape == 1 && m >= n)
+        std::swap(m, n), n += 1;
+    if (shape == 2)
+        n = m;
+    const int mn = std::min(m, n);
+    // two close wanted singular values: the small-maxit argument set leaves the run partly converged
+    VecL s(mn);
+    const LD lead[4] = {3.0L, 2.6L, 2.59L, 2.0L};
+    for (int i = 0; i < mn; i++)
+        s[i] = i < 4 ? lead[i] : 1.0L / (LD)(i - 2);
+    MatL U = rand_orth(m, r), V = rand_orth(n, r);
+    MatL A = U.leftCols(mn) * s.asDiagonal() * V.leftCols(mn).transpose();
+    const int ncomp = 3, ncv = 5 + r.below(4);
+    const int form = (int) d.i("form", 0);
+    if (form == 0)
+        svdseq_case<Eigen::MatrixXd>(d, A, ncomp, ncv, "dense");
+    else if (form == 1)
+        svdseq_case<Eigen::Matrix<double, Eigen::Dynamic, Eigen::Dynamic, Eigen::RowMajor> >(d, A, ncomp, ncv, "rowmajor");
+    else
+        svdseq_case<Eigen::SparseMatrix<double> >(d, A, ncomp, ncv, "sparse");
+}
+
 // =============================================================================================== C17: LOBPCG
 static void mode_lobpcg(const Desc& d)
 {
@@ -573,6 +679,8 @@ void dispatch(const Desc& d)
         if (d.i("sweep", 1) && (!d.has("case") || d.i("case") >= 1000))
             svd_sweep(d);
     }
+    else if (mode == "svdseq")
+        mode_svdseq(d);
     else if (mode == "lobpcg")
         mode_lobpcg(d);
     else if (mode == "davidson")
